@@ -13,7 +13,7 @@ CASE_T = "C01.Corr.case"
 PROPS = ["C01/Props.v"]
 CLAUSE = {1: "out-of-domain-readable", 2: "other-attribute-changed", 3: "failed-assignment-had-effect",
           4: "not-the-documented-conversion", 5: "foreign-exception", 6: "dynamic-range-out-of-bounds",
-          7: "dynamic-range-reads-outside-declared-range"}
+          7: "dynamic-range-reads-outside-declared-range", 8: "read-stored-something-else-than-the-default"}
 RELATION = "C01.Corr.corr_codes (Model.step = setattr / trait_set / constructor on every step)"
 HOW = {"Attr": "Attr", "TraitSet": "TraitSet", "Ctor": "Ctor"}
 
@@ -30,7 +30,8 @@ def to_term(case, ob):
         op = (C("TraitSetQ" if how in ("TraitSetQ", "TraitSetq") else how), [(int(n), pv.val_term(v)) for n, v in kws])
         out = C("Ok") if st["out"] == "Ok" else C("Raise", C(st["out"]))
         h.append((op, C("mkObs", out, bool(st["names"]), [(int(n), pv.val_term(w)) for n, w in st["after"]])))
-    return (env, cls, h)
+    pre = ([int(n) for n in case.get("pre", [])], [(int(n), pv.val_term(w)) for n, w in ob.get("init", [])])
+    return (env, cls, pre, h)
 
 
 def _first(case, step):
@@ -73,7 +74,7 @@ def describe(case, ob, code):
 
 
 def nontrivial(case, ob):
-    return json.dumps([case["traits"], case["ops"]]), any(s["out"] != "ETraitError" for s in ob["steps"])
+    return json.dumps([case["traits"], case["ops"], case.get("pre")]), any(s["out"] != "ETraitError" for s in ob["steps"])
 
 
 def check_obs(case, ob):
@@ -81,6 +82,18 @@ def check_obs(case, ob):
         if st["venc"] != [v for _, v in kws]:
             return "value descriptions %r re-encode as %r" % ([v for _, v in kws], st["venc"])
     return None
+
+
+def readable_first(t):
+    """may this attribute be read before the history starts? Not the traits with a post_setattr (a read stores the
+    default WITHOUT the shadow entry), not Property / PrototypedFrom / name-based Range and Enum (reads do not go through
+    the instance dictionary alone), not List / Dict (the default is a fresh TraitList object built and
+    length-checked by the read itself: C04's subject)"""
+    if len(t) > 2:
+        return False
+    if any(k in ("DMap", "DPrefixMap", "DRangeDyn", "DEnumDyn", "DProperty", "DList", "DDict") for k in pv.desc_kinds(t[1])):
+        return False
+    return '"dynamic"' not in json.dumps(t[1])
 
 
 def values_for(d, rnd, k):
@@ -238,6 +251,24 @@ def corpus():
     one(["DCompound", [["DEnum", [["PInt", 1], S("a")]], ["DStr"]]], *arr)
     one(["DTuple", [["DEnum", [["PInt", 1], S("a")]], ["DInt"]]], ["PTuple", [arr[0], ["PInt", 1]]], ["PTuple", [["PInt", 1], ["PInt", 1]]])
     one(["DUnion", [["DEnum", [["PInt", 1], S("a")]], ["DInt"]]], *arr, how="Ctor")
+    # READ FIRST, then assign the very object the read returned: the default a read stores is not validated, so what is
+    # stored is no evidence that assigning it is allowed (default None of allow_none=False traits, '' of String(minlen=2),
+    # None of Either(..)); also a valid value, then the default again
+    for d, bad, good in [(["DInstance", 100, False, False], ["PNone"], ["PObj", 100, 1]),
+                         (["DInstance", 101, False, False, "clone"], ["PNone"], ["PObj", 101, 1]),
+                         (["DCallable", False], ["PNone"], ["PCallable", 1]),
+                         (["DType", 100, False], ["PNone"], ["PType", 100]),
+                         (["DSelf", False], ["PNone"], ["PInt", 1]),
+                         (["DString", 2, 4, None], S(""), S("abc")),
+                         (["DString", 1, 3, 1], S(""), S("ab")),
+                         (["DCompound", [["DInt"], ["DStr"]]], ["PNone"], ["PInt", 3]),
+                         (["DCompound", [["DInstance", 100, False, False], ["DRangeF", F(0.0), F(1.0), 0]]], ["PNone"], ["PFloat", F(0.5)]),
+                         (["DTuple", [["DInt"], ["DStr"]]], ["PNone"], ["PTuple", [["PInt", 0], S("")]]),
+                         (["DInt"], ["PInt", 0], ["PNone"]), (["DRangeI", 1, 5, 0], ["PInt", 1], ["PInt", 0])]:
+        for how in ("Attr", "TraitSet", "TraitSetQ"):
+            cs.append(dict(traits=[[0, d], [1, ["DInt"]]], pre=[0], ops=[[how, [[0, bad]]], [how, [[0, good]]], [how, [[0, bad]]]]))
+        cs.append(dict(traits=[[0, d], [1, ["DInt"]], [2, d]], pre=[2, 1, 0],
+                       ops=[["TraitSet", [[1, ["PInt", 0]], [2, bad]]], ["Attr", [[0, bad]]], ["Ctor", [[0, bad]]], ["Attr", [[2, good]]]]))
     for how in ("Attr", "TraitSet", "Ctor"):                                           # F22
         one(["DInt"], ["PInt", 3], ["PUndefined"], ["PInt", 4], how=how)
     one(["DRangeF", F(0.0), F(1.0), 0], ["PUndefined"])
@@ -314,7 +345,18 @@ def gen_cases(ctx, rnd):
                     kws.append([n, values_for(descs[n], rnd, 1)[0] if n != 1 else rnd.choice([["PInt", 3], ["PStr", [97]], ["PBool", True]])])
                 ops.append([how, kws])
                 ctx.count("op:" + how + ("-multi" if len(kws) > 1 else ""))
-            cases.append(dict(traits=traits, ops=ops))
+            case = dict(traits=traits, ops=ops)
+            if rnd.random() < 0.25:      # some attributes have been read before the history starts
+                el = [t[0] for t in traits if readable_first(t)]
+                pre = [n for n in el if rnd.random() < 0.7]
+                if pre:
+                    rnd.shuffle(pre)
+                    case["pre"] = pre
+                    ctx.count("pre-read")
+                    if rnd.random() < 0.5:   # ... and what a read typically returns is assigned first
+                        n = rnd.choice(pre)
+                        ops.insert(0, [rnd.choice(["Attr", "TraitSet", "TraitSetQ"]), [[n, rnd.choice([["PNone"], pv.S(""), ["PInt", 0]])]]])
+            cases.append(case)
     for c in cases:
         for k in set(pv.desc_kinds(c["traits"][0][1])):
             ctx.count("trait:" + k)
@@ -335,7 +377,8 @@ def run(ctx):
         "are supplied as data by the driver (Section-variable oracles of the theorems); numpy Array, List/Dict/Set "
         "(C04), File/Directory/Date/Time/UUID are not modelled",
     ]
-    ctx.cov["rule"] = ("histories of 1-4 (thorough: 1-8) operations (attribute assignment, trait_set with one or two "
+    ctx.cov["rule"] = ("histories (a quarter of them after READS of some attributes, which store unvalidated defaults) "
+                       "of 1-4 (thorough: 1-8) operations (attribute assignment, trait_set with one or two "
                        "keywords, constructor keywords) on a class with the trait under test, an Int witness attribute and "
                        "sometimes a third trait; trait under test: every fast leaf configuration, int Range, Type, String "
                        "(length/regex grid), PrefixList/PrefixMap, Map (shadow), Union/Either/Tuple nestings to depth 3; "
